@@ -3,8 +3,9 @@ package schedx
 import (
 	"context"
 	"io"
+	"runtime"
 	"strings"
-	"time"
+	"sync/atomic"
 
 	"github.com/streamingfast/dstore"
 )
@@ -15,7 +16,14 @@ import (
 //
 //	fullWins:  while the full snapshot with the same end block exists, opening the partial blocks until its context is
 //	           cancelled (getPartialOrFullKV cancels it as soon as the full store is loaded).
-//	!fullWins: opening a full snapshot waits 20 ms when the partial with the same end block exists, so the partial wins.
+//	!fullWins: opening a full snapshot *from inside that race* (recognised by the caller's stack) blocks the same way
+//	           while the partial with the same end block exists, so the partial wins. Other loads of a full snapshot
+//	           (the store at the start of the segment) are not part of a race and go straight through. No timer is
+//	           involved in either mode: the loser is released by the winner's cancel.
+//
+// RacesDecided counts the loads this store held back so that the other side of the race wins.
+var RacesDecided int64
+
 type raceStore struct {
 	dstore.Store
 	fullWins bool
@@ -49,17 +57,32 @@ func (r *raceStore) OpenObject(ctx context.Context, name string) (io.ReadCloser,
 	switch {
 	case strings.HasSuffix(name, ".partial") && r.fullWins:
 		if r.sibling(ctx, name, ".kv") {
+			atomic.AddInt64(&RacesDecided, 1)
 			<-ctx.Done()
 			return nil, ctx.Err()
 		}
 	case strings.HasSuffix(name, ".kv") && !r.fullWins:
-		if r.sibling(ctx, name, ".partial") {
-			select {
-			case <-ctx.Done():
-				return nil, ctx.Err()
-			case <-time.After(20 * time.Millisecond):
-			}
+		if inLoadRace() && r.sibling(ctx, name, ".partial") {
+			atomic.AddInt64(&RacesDecided, 1)
+			<-ctx.Done()
+			return nil, ctx.Err()
 		}
 	}
 	return r.Store.OpenObject(ctx, name)
+}
+
+// inLoadRace reports whether the calling goroutine is the full-snapshot loader started by stage.getPartialOrFullKV.
+func inLoadRace() bool {
+	pcs := make([]uintptr, 32)
+	n := runtime.Callers(2, pcs)
+	frames := runtime.CallersFrames(pcs[:n])
+	for {
+		f, more := frames.Next()
+		if strings.Contains(f.Function, "stage.getPartialOrFullKV") {
+			return true
+		}
+		if !more {
+			return false
+		}
+	}
 }
